@@ -158,7 +158,7 @@ def c05_units(tier):
         Unit("claim-order", hs, "zzC05_ClaimOrder", {"loop": 40, "rec": 4}, bounds="store of 2 items; readyTasks before/after for an arbitrary epic filter"),
     ]
     if tier == "thorough":
-        us.append(Unit("compact-roundtrip-n3", hs, "zzC05_Compact_N3", {"loop": 96, "rec": 4, "_wall": 7000}, bounds="store of 3 items, 2 results per task"))
+        us.append(Unit("compact-roundtrip-r2", hs, "zzC05_Compact_N2R2", {"loop": 64, "rec": 4, "_wall": 3000}, bounds="store of 2 items, 2 results per task (3 items did not finish: the edge maps rebuilt by replay exceed the unrolling bound of 96, reported as such by the unwinding obligation, so N=3 is not registered)"))
     return us
 
 
@@ -309,7 +309,7 @@ def c20_units(tier):
     us.append(Unit("path-confined-bytes", hs, "zzC20_PathConfined_L9", fb, note="filepath.Clean replaced by zzCleanModel, a static-memory port compared natively with the library on ~960 000 strings (clean-model self test)",
                    bounds="byte mode: ANY path of <=9 bytes over the alphabet {/ . e r g o a}; os.Stat answers arbitrarily except that the project root is a directory; real validateResultPath; independent component-wise oracle on the raw text"))
     if tier == "thorough":
-        us.append(Unit("compact-n3", hs5, "zzC05_Compact_N3", {"loop": 96, "rec": 4, "_wall": 7000, "only": "C20/"}, bounds="store of 3 items, 2 results per task"))
+        us.append(Unit("compact-r2", hs5, "zzC05_Compact_N2R2", {"loop": 64, "rec": 4, "_wall": 3000, "only": "C20/"}, bounds="store of 2 items, 2 results per task"))
     return us
 
 
